@@ -511,6 +511,16 @@ func (req *Request) bodyBuffer() *bytebufferpool.ByteBuffer {
 	return req.body
 }
 
+// appendBodyBuffer is the request counterpart of Response.appendBodyBuffer.
+func (req *Request) appendBodyBuffer() *bytebufferpool.ByteBuffer {
+	raw := req.bodyRaw
+	bb := req.bodyBuffer()
+	if raw != nil {
+		bb.Set(raw)
+	}
+	return bb
+}
+
 var (
 	responseBodyPool bytebufferpool.Pool
 	requestBodyPool  bytebufferpool.Pool
@@ -945,15 +955,15 @@ func (req *Request) Body() []byte {
 // It is safe re-using p after the function returns.
 func (req *Request) AppendBody(p []byte) {
 	req.RemoveMultipartFormFiles()
-	req.closeBodyStream()     //nolint:errcheck
-	req.bodyBuffer().Write(p) //nolint:errcheck
+	req.closeBodyStream()           //nolint:errcheck
+	req.appendBodyBuffer().Write(p) //nolint:errcheck
 }
 
 // AppendBodyString appends s to request body.
 func (req *Request) AppendBodyString(s string) {
 	req.RemoveMultipartFormFiles()
-	req.closeBodyStream()           //nolint:errcheck
-	req.bodyBuffer().WriteString(s) //nolint:errcheck
+	req.closeBodyStream()                 //nolint:errcheck
+	req.appendBodyBuffer().WriteString(s) //nolint:errcheck
 }
 
 // SetBody sets request body.
